@@ -2,7 +2,7 @@
    production reader (Model/Reader.v) -> SessionTask::run as the select!-outcome transition system
    (Model/ServerRun.v). The command side of the schedule says, for each select!, which branch won:
    CNext = run_one's reader branch (it then gets the NEXT frame the reader delivers from the
-   stream), CCommand / CClosed = the command branch, CWriteDone = write_reply's write branch.
+   stream), CCommand / CClosed = the command branch, CWriteDone / CWriteFailed = write_reply's write branch.
    When the reader branch is taken and the stream yields no further frame, next_frame returns the
    reader's ending and `frame?` ends the session with it.
    That cancelling next_frame (the command branch wins while a frame is half read) loses no bytes -
@@ -16,7 +16,7 @@ Module F := Rodbus.Base.Frame.
 Module S := Rodbus.Base.ServerTypes.
 Module R := Rodbus.Base.ServerRun.
 
-Inductive cevent := CNext | CCommand (c : R.command) | CClosed | CWriteDone.
+Inductive cevent := CNext | CCommand (c : R.command) | CClosed | CWriteDone | CWriteFailed.
 
 (* the select! outcomes with the frames filled in; true = the reader branch was taken with no frame left *)
 Fixpoint fill (frames : list S.frame) (cevs : list cevent) : list R.sevent * bool :=
@@ -30,6 +30,7 @@ Fixpoint fill (frames : list S.frame) (cevs : list cevent) : list R.sevent * boo
   | CCommand c :: rest => let '(evs, b) := fill frames rest in (R.ECommand c :: evs, b)
   | CClosed :: rest => let '(evs, b) := fill frames rest in (R.EClosed :: evs, b)
   | CWriteDone :: rest => let '(evs, b) := fill frames rest in (R.EWriteDone :: evs, b)
+  | CWriteFailed :: rest => let '(evs, b) := fill frames rest in (R.EWriteFailed :: evs, b)
   end.
 
 Fixpoint cstrip (cevs : list cevent) : list cevent :=
